@@ -98,6 +98,7 @@ def check_history(res, rng, metric, kind, length):
                 fresh, fresh_l = api.gen_dataset(rng, metric, kind, nf, dim)
             if nr:
                 repl = sorted(set(int(v) for v in rng.integers(0, cur_n, nr)) | {int(2 * rng.integers(0, 6))})   # always one twin
+                repl = [repl[i] for i in rng.permutation(len(repl))]       # callers list the rows in any order; rows pair by position
                 upd, upd_l = api.gen_dataset(rng, metric, kind, len(repl), dim)
             try:
                 idx.update(xs_fresh=fresh, xs_updated=upd, updated_indices=repl if nr else None)
@@ -110,6 +111,16 @@ def check_history(res, rng, metric, kind, length):
                 for j in range(nf):
                     logical.append((cur_n + j, 0)); content[(cur_n + j, 0)] = np.asarray(fresh_l[j])
             model_ops.append("update %d | %s | %s" % (nf, " ".join(map(str, repl)), vo_tokens()))
+            if err is None and (nf or repl):
+                # the new / replaced rows are part of the index: NN-descent gave them neighbours (a query probe is not used here:
+                # with random seeding and tiny k the approximate search may legitimately miss them)
+                touched = list(repl) + list(range(cur_n, cur_n + nf))
+                g_i = idx._neighbor_graph[0]
+                empty = [i for i in touched if not (g_i[i] >= 0).any()]
+                if len(logical) > 2 and len(empty) * 2 > len(touched):
+                    res.violation(key + ":new-rows-empty", "after %s: %d of %d appended / replaced points have an empty (all -1) neighbour row"
+                                  % (list(done) + [list(op)], len(empty), len(touched)), case)
+                    return
         elif op[0] == "update-bad":
             # replacement rows addressed by an invalid row number: must be refused with the index untouched
             cur_n = len(logical)
